@@ -199,17 +199,24 @@ pub fn c14(h: &mut H) {
                 let v = zkverify(h, &k.pk, &bases, &z, &cv, ctv.as_ref(), iss.cpk.as_ref(), &hidden);
                 h.expect(!v.is_true(), "C14.leaf_edit", &format!("verify_proof accepted a proof with field {} altered", path), &[h.last()]);
             }
-            // re-issuing after changing a revealed attribute
-            if !iss.revealed_idx.is_empty() {
+            // re-issuing after changing a revealed attribute (each revealed position in turn, then all)
+            for which in 0..=iss.revealed_idx.len() {
+                if iss.revealed_idx.is_empty() { break; }
                 let mut newrev = revealed.clone();
-                newrev[0] = hash_attr(h);
+                if which < iss.revealed_idx.len() {
+                    newrev[which] = hash_attr(h);
+                } else {
+                    for x in newrev.iter_mut() { *x = hash_attr(h); }
+                }
                 let (ub, _) = call(h, "cl.update", vec![bsig.clone(), ivs(&newrev), iss.c.clone(), k.sk.clone(), k.pk.clone(), ivs(&bases), uv(&iss.revealed_idx)], vec![]);
                 let uid = h.last();
                 if let Some(ub) = ub.ok().cloned() {
                     let (s2, _) = call(h, "cl.unblind", vec![ub, iss.c.clone()], vec![]);
                     let s2 = s2.ok().unwrap().clone();
                     let mut updated = iss.msgs.clone();
-                    updated[iss.revealed_idx[0]] = newrev[0].clone();
+                    for (pos, &ri) in iss.revealed_idx.iter().enumerate() {
+                        updated[ri] = newrev[pos].clone();
+                    }
                     let v = verifym(h, &k.pk, &bases, &s2, &updated);
                     h.expect(v.is_true(), "C14.update_new", "re-issued signature does not verify on the updated vector", &[uid, h.last()]);
                     let v = verifym(h, &k.pk, &bases, &s2, &iss.msgs);
